@@ -16,6 +16,7 @@ Directive language (each directive is a line starting with `//@`):
   //@ expanded-impl `<header>`          impl block taken from rustc's macro-expanded source
   //@ assoc <Name>                      (inside trait/impl) copy `type Name ...;`
   //@ fn-absent <name>                  (inside impl) structural obligation: no function of this name in this configuration
+  //@ forbid-call <name> [allow=N `item`]   unit-level structural obligation per verified function: no call of <name> (any spelling)
   //@ fn <name> [external] [name=Obl]   (inside trait/impl) copy fn <name>, see below
   //@ freefn <src> <name> [external]    copy a free function
       //@ | text                        ghost text: after a `fn`, goes between signature and body;
@@ -472,6 +473,20 @@ class Extractor:
                 self.pending_after_container = []
             elif word == 'assoc':
                 self._assoc(bare[0])
+            elif word == 'forbid-call':
+                # //@ forbid-call <name> [allow=N in `<item>`]...   unit-level structural obligation, one per verified function emitted so far:
+                # the body must not call <name> (in any spelling: method, path, UFCS) - except the stated number of times in the named item
+                allow = {}
+                for k_, q in enumerate(quoted):
+                    allow[q] = int([b for b in bare[1:] if b.startswith('allow=')][k_][6:])
+                rx = re.compile(r'\b%s\s*(?:::\s*<[^()]*?>\s*)?\(' % re.escape(bare[0]))
+                for oname_, code_ in sorted(getattr(self, 'fn_code', {}).items()):
+                    n_ = len(rx.findall(code_))
+                    ok_ = n_ <= allow.get(oname_, 0)
+                    self._forbid_n = getattr(self, '_forbid_n', 0) + 1
+                    self.out.emit('// structural obligation: `%s` calls `%s` %d time(s), at most %d allowed here\nproof fn forbid_obligation_%d()\n    ensures %s,\n{}'
+                                  % (oname_, bare[0], n_, allow.get(oname_, 0), self._forbid_n, 'true' if ok_ else 'false'),
+                                  'tmpl', 'tmpl::no_call::%s::%s' % (bare[0], oname_))
             elif word == 'fn-absent':
                 # structural obligation: in this configuration the impl must NOT contain a function of this name (a feature-gated setter
                 # that exists without its feature would keep what the statement says is dropped).  Emitted as a proof obligation of its
@@ -1422,6 +1437,10 @@ class Extractor:
                                    sha=hashlib.sha1(norm(src.text[it.attr_end:it.end]).encode()).hexdigest()[:12]))
         if not (spec.external and has_body):
             self.obligation_items.append(oname)
+            if has_body:
+                # code text of the verified body (comments / strings blanked), for unit-level structural obligations (`forbid-call`)
+                self.fn_code = getattr(self, 'fn_code', {})
+                self.fn_code[oname] = ''.join(c if m_ else ' ' for c, m_ in zip(text[body_open:], mask[body_open:]))
 
     @staticmethod
     def _find_arrow(text, mask, sig_end):
